@@ -348,6 +348,15 @@ def g12(ctx):
     r.exactly('trivia_function(role: operand of many0 in ws())', 1 if ws_role else 0, 1)
     inline_no_trivia = set()
 
+    # the token vocabulary: literals that some symbol(..) / keyword(..) of the grammar reads as ONE token
+    vocab = set()
+    for f_ in g.parsers():
+        if f_.ir is None:
+            continue
+        for node_ in grammar.iter_ir(f_.ir):
+            if node_.get('op') == 'lit' and node_.get('kind') in ('symbol', 'keyword', 'symbol_exact'):
+                vocab.add(node_.get('text'))
+
     def walk_raw(ir, look, tokdef, f, lex):
         nonlocal nraw
         op = ir.get('op')
@@ -355,6 +364,14 @@ def g12(ctx):
         if raw:
             nraw += 1
             r.inst('raw:%s:%s' % (f.name, grammar.show(ir)[:30]))
+            # a raw look-ahead at grammar level sees the first characters of the NEXT token (trivia was consumed by the previous one): a
+            # literal of several characters that is not one token of the vocabulary spans two tokens and fails as soon as trivia stands between them
+            txt_ = ir.get('text') if op == 'lit' else None
+            if look and not (lex or tokdef or f.name == ws_role) and txt_ and len(txt_) >= 2 and txt_ not in vocab and not txt_.startswith('`'):
+                r.fail('%s:%s:lookahead-spans-tokens:%s' % (g.crate, f.name, txt_[:12]), '%s/%s:%s' % (g.crate, f.file, ir.get('l')),
+                       '%s: the look-ahead %s tests the raw text %r, which is not a token of this grammar but several: with white space or a comment between them the '
+                       'look-ahead fails, the alternative is abandoned and the same sentence is classified differently (or rejected) depending on its layout' %
+                       (f.name, grammar.show(ir)[:40], txt_))
             if not (lex or look or tokdef or f.name == ws_role):
                 r.fail('%s:%s:raw-lexer:%s' % (g.crate, f.name, grammar.show(ir)[:30]), '%s/%s:%s' % (g.crate, f.file, ir.get('l')),
                        '%s: raw lexer %s used at grammar level (outside a lexeme function, an inline token definition '
